@@ -177,14 +177,19 @@ Definition chk_enc (p : wobs) (o : option string) : bool :=
 Definition chk_un (t : tbl) (b : bytes) (o : uobs) : bool :=
   match o with
   | UE 0 => negb (N.eqb (ucode (unmarshal_tx Gen.msgs b)) 0)
-  | UE 2 => negb (N.eqb (ucode (unmarshal_hdr Gen.msgs b)) 0)
-  | UE 3 => negb (N.eqb (ucode (unmarshal_block Gen.msgs b)) 0)
+  | UE 2 => match unmarshal_hdr Gen.msgs b with
+            | UOk p => out_eqb ohdr_eqb (m_hdr_of_pb t p) (Ok None)    (* rejected header: an error since 15a1dce *)
+            | r => negb (N.eqb (ucode r) 0) end
+  | UE 3 => match unmarshal_block Gen.msgs b with
+            | UOk p => match m_blk_of_pb t p with Ok k => match k.(c_Header _ _) with None => true | _ => false end | Panic => false end
+            | r => negb (N.eqb (ucode r) 0) end
   | UE 4 => negb (N.eqb (ucode (unmarshal_group Gen.msgs b)) 0)
   | UE _ => false
-  | UNilHdr => chk_u (unmarshal_hdr Gen.msgs b) (fun p => out_eqb ohdr_eqb (m_hdr_of_pb t p) (Ok None))
+  | UNilHdr => false                        (* (nil, nil) is no longer a possible result *)
   | UTx x => chk_u (unmarshal_tx Gen.msgs b) (fun p => out_eqb tx_eqb (m_tx_of_pb t p) (Ok x))
   | UHdr x => chk_u (unmarshal_hdr Gen.msgs b) (fun p => out_eqb ohdr_eqb (m_hdr_of_pb t p) (Ok (Some x)))
-  | UBlk x => chk_u (unmarshal_block Gen.msgs b) (fun p => out_eqb blk_eqb (m_blk_of_pb t p) (Ok x))
+  | UBlk x => match x.(c_Header _ _) with None => false | Some _ =>
+              chk_u (unmarshal_block Gen.msgs b) (fun p => out_eqb blk_eqb (m_blk_of_pb t p) (Ok x)) end
   | UGrp x => chk_u (unmarshal_group Gen.msgs b) (fun p => out_eqb group_eqb (m_grp_of_pb p) (Ok x))
   end.
 
